@@ -80,6 +80,12 @@ def is_none(e):
     return isinstance(e, ast.Constant) and e.value is None
 
 
+def is_none_test(t, target_dump):
+    return (isinstance(t, ast.Compare) and len(t.ops) == 1 and isinstance(t.ops[0], ast.Is)
+            and isinstance(t.comparators[0], ast.Constant) and t.comparators[0].value is None
+            and ast.dump(t.left) == target_dump)
+
+
 def call_name(e):
     if isinstance(e, ast.Call):
         if isinstance(e.func, ast.Name):
@@ -99,6 +105,13 @@ def okind(e):
         if is_self_attr(b) and is_not_none_test(e.test, ast.dump(b)):
             return b.attr, "OOptPlain"
         if isinstance(b, ast.Attribute) and b.attr == "ID" and is_self_attr(b.value) and is_not_none_test(e.test, ast.dump(b.value)):
+            return b.value.attr, "OOptId"
+    if isinstance(e, ast.IfExp) and is_none(e.body):
+        # the same conditional written the other way round: None if X is None else X[.ID]
+        b = e.orelse
+        if is_self_attr(b) and is_none_test(e.test, ast.dump(b)):
+            return b.attr, "OOptPlain"
+        if isinstance(b, ast.Attribute) and b.attr == "ID" and is_self_attr(b.value) and is_none_test(e.test, ast.dump(b.value)):
             return b.value.attr, "OOptId"
     if isinstance(e, ast.Call) and isinstance(e.func, ast.Name) and len(e.args) == 1 and not e.keywords:
         a = e.args[0]
@@ -153,6 +166,21 @@ def exports_of(cls):
                     continue
                 a, k = okind(kw.value)
                 out.append((kw.arg, a, k))
+        if isinstance(n, ast.Call) and isinstance(n.func, ast.Name) and n.func.id == "dict" and not n.args and n.keywords \
+                and all(kw.arg is not None for kw in n.keywords):
+            # dict(k=v, ...) instead of {}.update(k=v, ...)
+            for kw in n.keywords:
+                if kw.arg == "type" and is_type_tag(kw.value):
+                    continue
+                a, k = okind(kw.value)
+                out.append((kw.arg, a, k))
+        if isinstance(n, ast.Dict) and n.keys and all(isinstance(k, ast.Constant) and isinstance(k.value, str) for k in n.keys):
+            # a dict literal with constant string keys
+            for kk, vv in zip(n.keys, n.values):
+                if kk.value == "type" and is_type_tag(vv):
+                    continue
+                a, k = okind(vv)
+                out.append((kk.value, a, k))
         if isinstance(n, ast.Call) and isinstance(n.func, ast.Attribute) and n.func.attr == "export_dict_json_data" \
                 and isinstance(n.func.value, ast.Call) and call_name(n.func.value) == "super":
             inherits = True
